@@ -18,7 +18,8 @@ def run(tier, replay=None):
     ck = Check("C01", tier)
     binp = build_harness()
     salts = ["", "b"] if tier == "quick" else ["", "b", "c", "d", "e", "f"]
-    cfg = "MC_C01_quick.cfg" if tier == "quick" else "MC_C01_thorough.cfg"
+    cfgs = ["MC_C01_quick.cfg", "MC_C01_repeats.cfg"] if tier == "quick" else ["MC_C01_thorough.cfg", "MC_C01_repeats.cfg"]
+    cfg = cfgs
     total = nontrivial = drift = groups_n = 0
     if replay:
         obj = json.load(open(replay))["case"]
@@ -27,15 +28,20 @@ def run(tier, replay=None):
         runs = []
         for salt in salts:
             ids = id_ranks(binp, salt)
-            res = tlc("MC_C01", cfg, workers=8, env={"VERIF_IDS": ids}, timeout=7200, tags=("CASE",), out_name=f"c01_{salt}")
-            ck.add_tlc(res)
-            if res.violation:
-                ck.violation(f"spec:{cfg}:{res.violation}", "TLC invariant violated on the model:\n" + res.error_text[:3000],
-                             {"cfg": cfg, "salt": salt, "invariant": res.violation, "trace": res.error_text[:20000]})
-                continue
-            if not res.lines:
-                raise ToolError(f"{cfg}: nothing exported")
-            runs.append((salt, [c for _, c in res.lines]))
+            cases = []
+            for one in cfgs:
+                if one == "MC_C01_repeats.cfg" and salt != salts[0]:
+                    continue
+                res = tlc("MC_C01", one, workers=8, env={"VERIF_IDS": ids}, timeout=7200, tags=("CASE",), out_name=f"c01_{salt}_{one[:-4]}")
+                ck.add_tlc(res)
+                if res.violation:
+                    ck.violation(f"spec:{one}:{res.violation}", "TLC invariant violated on the model:\n" + res.error_text[:3000],
+                                 {"cfg": one, "salt": salt, "invariant": res.violation, "trace": res.error_text[:20000]})
+                    continue
+                if not res.lines:
+                    raise ToolError(f"{one}: nothing exported")
+                cases += [c for _, c in res.lines]
+            runs.append((salt, cases))
     for salt, cases in runs:
         cin = write_ndjson(os.path.join(WORK, f"c01_{salt}.cases"), cases)
         cout = os.path.join(WORK, f"c01_{salt}.results")
